@@ -8,6 +8,7 @@ CONSTANTS
   Filter = TRUE
   ValueEq = TRUE
   SoloTries = 0
+  SplitPC = FALSE
 SPECIFICATION FairSpec
 PROPERTIES Settles
 CHECK_DEADLOCK FALSE
